@@ -14,6 +14,7 @@ from common import show_list, frac_str
 LEVEL = "proof"
 LEAN_PROPS = ["FastTicc.Props.C17", "FastTicc.Props.C17b", "FastTicc.Props.C12", "FastTicc.Props.Final"]
 LEAN_HELPERS = ["FastTicc.Proofs.Stats", "FastTicc.Proofs.StatsPartition", "FastTicc.Proofs.Final"]
+LEAN_TRANSLATED = {"FastTicc.Props.TrCh": ["calinski_harabasz_index"]}
 RULE = ("(a) synthetic integer data with given labels through the real metric vs the rational model (pinned and spec "
         "value); (b) converged runs with K>=2 and every cluster non-empty: the reported value vs an independent "
         "computation from data and returned labels, and the same data translated by a per-sensor constant; "
